@@ -176,6 +176,20 @@ pub fn handle(op: &str, arg: &str) -> Option<String> {
                 Err(_) => "panic".into(),
             }
         }
+        // the same through `From<&Entry>` (used by chokan-dic and by the start-up merge of user.dic)
+        "wordsref" => {
+            let sp = parse_speech_token(&f[0])?;
+            let rd = parse_cps(&f[1]);
+            let stem = parse_cps(&f[2]);
+            match guarded(|| {
+                let e = Entry::from_jisyo(&rd, &stem, sp);
+                let ws: Vec<Word> = (&e).into();
+                ws
+            }) {
+                Ok(ws) => show_words(ws),
+                Err(_) => "panic".into(),
+            }
+        }
         // print <speech token> | <reading> | <stem>  -> Display line
         "print" => {
             let sp = parse_speech_token(&f[0])?;
